@@ -20,6 +20,8 @@ class Message:
     def _check_args(self):
         if any(type(arg)(' ') in arg in arg for arg in self.args[:-1] if isinstance(arg, str)):
             raise Error('Space can only appear in the very last arg')
+        if any(not arg or arg.startswith(':') for arg in self.args[:-1] if isinstance(arg, str)):
+            raise Error('Only the very last arg can be empty or start with a colon')
         if any('\n' in arg or '\r' in arg for arg in self.args if isinstance(arg, str)):
             raise Error('No newline allowed')
         command = str(self.command)
@@ -46,7 +48,7 @@ class Message:
         self._check_args()
         args = self.args[:]
 
-        if args and ' ' in args[-1] and not args[-1].startswith(':'):
+        if args and (' ' in args[-1] or not args[-1]) and not args[-1].startswith(':'):
             args[-1] = f':{args[-1]}'
 
         return '{prefix}{command} {args}\r\n'.format(
